@@ -26,8 +26,17 @@ def enc(v):
     return {"s": v}
 
 
+def unrange(a):
+    """an interval and the list of the same integers are the same value (the container type of `[a..b]` is not documented)"""
+    if set(a) == {"r"}:
+        lo, hi = int(a["r"][0]), int(a["r"][1])
+        return {"l": [{"i": str(x)} for x in range(lo, hi + 1)]}
+    return a
+
+
 def same(a, b):
     """model tree vs implementation tree; floats are compared numerically"""
+    a, b = unrange(a), unrange(b)
     if set(a) != set(b):
         return False
     k = next(iter(a))
